@@ -975,6 +975,10 @@ FUZZ_TOKENS = [b'0', b'-1', b'abc', b'1_0', b'=', b', ', b' ', b'\r\n', b'\n', b
                b'section_id=1', b'_level=1', b'subsections=1', b'base64', b'undefined', b'utf-8-sig', b'UTF-32',
                b'#diffx: version=1.0\n', b'#.change:\n', b'#...meta: length=3\n{}\n', b'    ', b'indent=4294967295',
                b'indent=-1', b'line_endings=5', b'encoding=5', b'mimetype=x', b'type=x', b'diff_type=text',
+               b'encoding=punycode', b'encoding=idna', b'encoding=utf-7', b'encoding=cp037', b'encoding=undefined',
+               b'encoding=rot13', b'encoding=hex', b'encoding=unicode_escape', b'encoding=raw_unicode_escape',
+               b'encoding=utf-16-be', b'encoding=cp1252', b'encoding=shift_jis', b'encoding=iso2022_jp', b'encoding=hz',
+               b'punycode', b'idna', b'xn--a',
                b'9' * 4300, b'9' * 4301, b'-' + b'1' * 4301, b'0' * 5000, b'x=' + b'7' * 4400, b'length=' + b'3' * 4310]
 MODELLED_CANON = {'ascii', 'iso8859-1', 'utf-8', 'utf-8-sig', 'utf-16', 'utf-16-le', 'utf-16-be', 'utf-32', 'utf-32-le',
                   'utf-32-be'}
@@ -1056,6 +1060,16 @@ class Fuzz(Family):
                 elif p < len(d):
                     d[p] = rng.randrange(256)
             yield dict(kind='mutated', data=hx(bytes(d)))
+        # sections under codecs CPython knows and the model does not execute (the model discards them; the error
+        # contract is still checked on the implementation)
+        for codec in ['punycode', 'idna', 'utf-7', 'cp037', 'undefined', 'rot13', 'hex', 'base64', 'unicode_escape',
+                      'iso2022_jp', 'hz', 'cp1252', 'shift_jis', 'utf-16-be', 'mbcs', 'oem', 'string_escape']:
+            for body in [b'Fix the bug.\n', b'xn--a.example.com\n', b'\xff\xfe\n', b'+AOk-\n', b'a\n', b'{"a": 1}\n', b'~{\n']:
+                for sec in ('.preamble', '.meta'):
+                    yield dict(kind='exotic-codec', data=hx(b'#diffx: version=1.0, encoding=utf-8\n#%s: encoding=%s, length=%d\n'
+                                                            % (sec.encode(), codec.encode(), len(body)) + body))
+                yield dict(kind='exotic-codec', data=hx(b'#diffx: version=1.0, encoding=%s\n#.preamble: length=%d\n'
+                                                        % (codec.encode(), len(body)) + body))
         # deep JSON
         deep = b'[' * 100000 + b']' * 100000 + b'\n'
         yield dict(kind='deep-json', data=hx(b'#diffx: version=1.0, encoding=utf-8\n#.meta: length=%d\n' % len(deep) + deep))
